@@ -107,7 +107,7 @@ def describe(pid, cfg, w, ctx):
         setn, bs = inp[0], inp[1:]
         rep['input_text'] = "set %d bytes %s" % (setn, ' '.join('%02x' % b for b in bs))
         rep['harness_cmd'] = ['replay', 'bytes', 'set%d' % setn, ','.join(str(b) for b in bs)]
-        rep['expected'] = tok_sc(w['expected'], en)
+        rep['expected'] = tok_sc(w['expected'], en) if w['expected'] != [9] else 'a value, not a panic'
         rep['model_actual'] = tok_sc(w['actual'], en)
     elif kind in ('two_seq', 'c13'):
         # two byte streams separated by 999; first element: set (two_seq) or direction (c13)
